@@ -1,2 +1,5 @@
+pub mod c07;
+pub mod c16;
 pub mod c18;
 pub mod c18_l2;
+pub mod c19;
